@@ -74,13 +74,20 @@ def discharge(axioms, ob: Obligation, tier: str = "quick", budget_ms: int = 1000
         if r == z3.unsat:
             return Verdict(ob.name, "unknown", "z3-5.1", ms, ob.where, ob.kind, "hypotheses are contradictory: `False` was proved")
         return Verdict(ob.name, "discharged", "z3-5.1", ms, ob.where, ob.kind, f"not refutable ({r}), as required")
-    r = None
-    # e-matching only; then with MBQI; then e-matching again with another seed and twice the
-    # budget (quantifier instantiation order is seed dependent: a proof found in 7 s with one
-    # seed can need 15 s with another)
-    for mbqi, seed, factor in ((False, 0, 1), (True, 0, 1), (False, 7, 2)):
+    # Stage budgets are z3 resource limits (rlimit, about 2000 units per millisecond on this machine
+    # for e-matching queries) capped by a wall-clock timeout of twice the nominal time: on an idle or a
+    # moderately busy machine the verdict of a stage does not depend on the load.  Order: z3 e-matching
+    # (seed 0); cvc5 on the SMT-LIB dump (the finite-set cardinality obligations are only ever decided
+    # by cvc5); z3 e-matching with another seed (instantiation order is seed dependent and the running
+    # time heavy-tailed: restarts beat one long run); z3 with MBQI; a third seed with twice the budget;
+    # z3 4.8.12.  `unsat` from any of them discharges; `sat` is only believed from the first z3 run.
+    trail = []
+    state = {"txt": None, "qhash": ""}
+
+    def z3_stage(mbqi, seed, factor):
         s = z3.Solver()
-        s.set("timeout", budget_ms * factor)
+        s.set("rlimit", int(budget_ms * 2000 * factor))
+        s.set("timeout", int(budget_ms * 2 * factor))
         if seed:
             s.set("random_seed", seed)
             s.set("smt.random_seed", seed)
@@ -92,41 +99,48 @@ def discharge(axioms, ob: Obligation, tier: str = "quick", budget_ms: int = 1000
             s.add(f)
         s.add(z3.Not(ob.goal))
         r = s.check()
-        if r != z3.unknown:
-            break
-    ms = int((time.time() - t0) * 1000)
-    txt = None
-    qhash = ""
+        trail.append(f"z3-5.1[{'mbqi' if mbqi else 'ematch'},seed={seed},x{factor}]:{r}")
+        return r, s
+
+    def dump():
+        if state["txt"] is None:
+            state["txt"] = _smt2(axioms, ob)
+            state["qhash"] = hashlib.sha256(state["txt"].encode()).hexdigest()[:16]
+        return state["txt"]
+
+    def elapsed():
+        return int((time.time() - t0) * 1000)
+
+    r, s = z3_stage(False, 0, 1)
     if r == z3.unsat:
-        v = Verdict(ob.name, "discharged", "z3-5.1", ms, ob.where, ob.kind)
+        v = Verdict(ob.name, "discharged", "z3-5.1", elapsed(), ob.where, ob.kind)
         if tier != "thorough":
             return v
-        # thorough: cross-validate with a second solver; disagreement is reported by the caller
-        txt = _smt2(axioms, ob)
-        v.qhash = hashlib.sha256(txt.encode()).hexdigest()[:16]
-        # second opinion with a short limit: only a definite `sat` (disagreement) matters
-        res, ms2 = _run_cli(["/usr/bin/cvc5", "--tlimit=4000"], txt, 6)
+        # thorough: second opinion with a short limit: only a definite `sat` (disagreement) matters
+        res, ms2 = _run_cli(["/usr/bin/cvc5", "--tlimit=4000"], dump(), 6)
+        v.qhash = state["qhash"]
         if res == "sat":
             v.status, v.detail = "unknown", "z3 unsat but cvc5 sat: solver disagreement"
         else:
             v.detail = f"cvc5:{res}:{ms2}ms"
         return v
-    first = str(r)
-    model = None
     if r == z3.sat:
         try:
             model = str(s.model())[:4000]
         except Exception:
             model = None
-        return Verdict(ob.name, "sat", "z3-5.1", ms, ob.where, ob.kind, "", "", model)
-    # unknown: other solvers on the dump
-    txt = _smt2(axioms, ob)
-    qhash = hashlib.sha256(txt.encode()).hexdigest()[:16]
-    res, ms2 = _run_cli(["/usr/bin/cvc5", "--tlimit=%d" % (budget_ms * 2)], txt, budget_ms * 2 // 1000 + 1)
+        return Verdict(ob.name, "sat", "z3-5.1", elapsed(), ob.where, ob.kind, "", "", model)
+    res, _ = _run_cli(["/usr/bin/cvc5", "--tlimit=%d" % budget_ms], dump(), budget_ms // 1000 + 2)
+    trail.append(f"cvc5:{res}")
     if res == "unsat":
-        return Verdict(ob.name, "discharged", "cvc5-1.0.3", ms + ms2, ob.where, ob.kind, f"z3:{first}", qhash)
-    res3, ms3 = _run_cli(["/usr/bin/z3", "-T:%d" % (budget_ms // 1000 + 1)], txt, budget_ms // 1000 + 2)
+        return Verdict(ob.name, "discharged", "cvc5-1.0.3", elapsed(), ob.where, ob.kind, " ".join(trail), state["qhash"])
+    for mbqi, seed, factor in ((False, 7, 1), (True, 0, 1), (False, 13, 2)):
+        r, s = z3_stage(mbqi, seed, factor)
+        if r == z3.unsat:
+            return Verdict(ob.name, "discharged", "z3-5.1", elapsed(), ob.where, ob.kind, " ".join(trail), state["qhash"])
+    res3, _ = _run_cli(["/usr/bin/z3", "-T:%d" % (budget_ms // 1000 + 1)], dump(), budget_ms // 1000 + 2)
+    trail.append(f"z3-4.8:{res3}")
     if res3 == "unsat":
-        return Verdict(ob.name, "discharged", "z3-4.8.12", ms + ms2 + ms3, ob.where, ob.kind, f"z3-5.1:{first} cvc5:{res}", qhash)
-    status = "sat" if "sat" in (res, res3) and res != "unsat" and res3 != "unsat" and (res == "sat" or res3 == "sat") else "unknown"
-    return Verdict(ob.name, status, "z3-5.1+cvc5+z3-4.8", ms + ms2 + ms3, ob.where, ob.kind, f"z3-5.1:{first} cvc5:{res} z3-4.8:{res3}", qhash)
+        return Verdict(ob.name, "discharged", "z3-4.8.12", elapsed(), ob.where, ob.kind, " ".join(trail), state["qhash"])
+    status = "sat" if res == "sat" or res3 == "sat" else "unknown"
+    return Verdict(ob.name, status, "z3-5.1+cvc5+z3-4.8", elapsed(), ob.where, ob.kind, " ".join(trail), state["qhash"])
